@@ -80,6 +80,7 @@ def _codes_of(suffixes: tuple[str, ...]) -> list[Any]:
 def _on_line(code: Any, line: int) -> Any:
     sim = _ACTIVE
     if sim is not None:
+        sim.cur_line = (code, line)
         sim._line_event()
     return None
 
@@ -321,6 +322,11 @@ class Sim:
         self.harness_proc = self.proc("harness")
         self.fault_table: dict[str, Any] = {}
         self.fault_hook: Callable[[Task, str, str], Any] | None = None
+        # line_fault(task) -> BaseException | None, asked at every line event of the traced
+        # files: an asynchronous exception (KeyboardInterrupt from a signal handler) that
+        # lands in the running task right there
+        self.line_fault: Callable[[Task], Any] | None = None
+        self.cur_line: Any = None  # (code object, line number) of the line event being handled
         self.pending_crashes: list[Proc] = []
         self.running = False
         self.step_hooks: list[Callable[[], None]] = []
@@ -381,6 +387,7 @@ class Sim:
 
     def _line(self, frame, event, arg):
         if event == "line":
+            self.cur_line = (frame.f_code, frame.f_lineno)
             self._line_event()
         return self._line
 
@@ -392,6 +399,10 @@ class Sim:
                 t.nyield += 1
                 if t.proc.dead:
                     raise SimKilled()
+                if self.line_fault is not None:
+                    exc = self.line_fault(t)
+                    if exc is not None:
+                        raise exc
                 if self.line_events > self.max_lines:
                     self._cap()
                 ch = self.chooser
@@ -626,6 +637,7 @@ class Sim:
                         timed = [t for t in live if t.wake is not None]
                         if not timed:
                             status = "deadlock"
+                            self.deadlock_info = [(t.name, t.blocked_why) for t in live]
                             break
                         self.now = min(t.wake for t in timed)
                         self.count("clock_jump")
